@@ -73,6 +73,8 @@ package gcsemu
 //@   ensures len(srcs) <= 32 && meta == nil ==> result0 == nil && is400(result1)
 //@   ensures result1 != nil ==> result0 == nil
 //@   ensures result1 == nil ==> len(srcs) <= 32 && meta != nil
+// the converse of the first clause: "too many sources" is only ever answered for more than 32 sources
+//@   callsite fmtErrorfCode requires arg1 == "too many sources" ==> len(srcs) > 32
 //@   loop 1 invariant len(metas) == len(srcs)
 //@   loop 1 invariant forall k :: 0 <= k <= idx1 ==> metas[k] != nil
 //@   loop 1 invariant forall k :: 0 <= k <= idx1 ==> condsHold(metas[k], srcs[k].conds)
@@ -102,6 +104,10 @@ package gcsemu
 //@   modifies *, ghost(jsonBodies)
 //@   ensures jsonBodies == old(jsonBodies) + 1
 //@   callback $1 invariant f1 + "/rewriteTo/b/" + (b2 + "/o/" + f2) == objectPaths
+// C15: the request is only refused as malformed (400) when the path really lacks one of the two separators - a
+// destination object name may itself contain "/o/"
+// (the assertion is attached to the construction of that refusal's message)
+//@   callsite Sprintf requires arg0 == "Bad rewrite request, expected object/file split: %s" ==> uf_strIdx(parts[1], "/o/") < 0
 
 // handleGcsMetadataRequest / handleGcsMediaRequest (C02/C20): a missing object (nil from the store) takes the 404
 // path and is never dereferenced; only the response writer is touched.
